@@ -20,7 +20,7 @@ META = dict(
               "each of status / status_code / code absent or one of {None, True, False, solver int (UNBOUNDED for "
               "default/strict; for http_classifier, whose set-membership test hashes the value, every integer of "
               "[395, 605] (args: [95, 605]) plus far-away representatives incl. +-10**400), solver real, NaN, inf, '401', 'x', b'401', [401], {'status': 401}, (401,), object()}; args of 0-2 such values; sqlstate "
-              "attribute/args text from templates (7 class prefixes x 7 suffixes x 6 wrappers incl. brackets, word "
+              "attribute/args text from templates, the code sitting in the first, second or third argument (7 class prefixes x 7 suffixes x 6 wrappers incl. brackets, word "
               "boundaries, lower case, two codes); the five optional-library classifiers with import_module stubbed to "
               "raise ImportError",
         thorough="same, plus all value kinds on all three attributes at once",
@@ -36,7 +36,7 @@ META = dict(
 )
 GOALS = ["marker_wins_over_status", "status_wins_over_name", "name_heuristic", "strict_ignores_name", "huge_int", "bool_status",
          "nan_status", "http_args_status", "http_falls_back_to_default", "sqlstate_attr", "sqlstate_from_args", "pyodbc_bracket",
-         "optional_equals_default", "status_5xx_boundary"]
+         "optional_equals_default", "status_5xx_boundary", "sqlstate_in_later_arg"]
 KEYWORDS = ["auth", "unauthoriz", "credential", "forbid", "permission", "timeout", "connection"]
 BASES = {"plain": Exception, "permanent": PermanentError, "ratelimit": RateLimitError, "concurrency": ConcurrencyError,
          "server": ServerError, "timeout": TimeoutError, "connection": ConnectionError, "oserror": OSError}
@@ -236,10 +236,13 @@ def sql_expect(code):
     return EC.UNKNOWN
 
 
-def _sql_oracle(text, code):
+def _sql_oracle(strings, code):
+    """first SQLSTATE-looking token in the exception's string args, in order (what the docs call 'extracted from args')"""
     import re
-    m = re.search(r"\b([0-9A-Z]{5})\b", text)
-    m2 = re.search(r"\[([0-9A-Z]{5})\]", text)
+    m = m2 = None
+    for t in strings:
+        m = m or re.search(r"\b([0-9A-Z]{5})\b", t)
+        m2 = m2 or re.search(r"\[([0-9A-Z]{5})\]", t)
     return (m.group(1) if m else None, m2.group(1) if m2 else None, re.fullmatch(r"[0-9A-Z]{5}", code) is not None)
 
 
@@ -251,7 +254,9 @@ def h_sql(sym, params):
         code = sym.choice("prefix", PREFIXES) + sym.choice("suffix", SUFFIXES)
     if where == "args":
         text = sym.choice("wrap", WRAPS).format(c=code)
-    exc = TYPES[(base, 0)](*([text, 7] if where == "args" else [7]))
+    layout = sym.choice("args_layout", ["first", "second", "third"]) if where == "args" else "none"
+    args = {"first": [text, 7], "second": ["Communication link failure", text], "third": [7, "no code", text], "none": [7]}[layout]
+    exc = TYPES[(base, 0)](*args)
     if where == "attr":
         exc.sqlstate = code
     elif where == "attr_nonstr":
@@ -271,7 +276,8 @@ def h_sql(sym, params):
                 return ("sqlstate_table", f"{nm}_classifier(sqlstate={code!r}) = {res[nm]}, documented {sql_expect(code)}")
         sym.cover("sqlstate_attr")
     elif where == "args":
-        m, m2, valid = engine.untraced(_sql_oracle, text, code)
+        # (OSError-derived types keep only two of three constructor arguments in .args: go by what .args really holds)
+        m, m2, valid = engine.untraced(_sql_oracle, [a for a in exc.args if isinstance(a, str)], code)
         exp = sql_expect(m) if m else default_classifier(exc)
         if res["sqlstate"] is not exp:
             return ("sqlstate_args", f"sqlstate_classifier(args={text!r}) = {res['sqlstate']}, expected {exp}")
@@ -279,6 +285,7 @@ def h_sql(sym, params):
         if res["pyodbc"] is not exp2:
             return ("pyodbc_args", f"pyodbc_classifier(args={text!r}) = {res['pyodbc']}, expected {exp2}")
         sym.cover("sqlstate_from_args", m is not None and valid)
+        sym.cover("sqlstate_in_later_arg", layout != "first" and m is not None)
         sym.cover("pyodbc_bracket", m2 is not None)
     elif where == "none":
         if res["sqlstate"] is not default_classifier(exc):
